@@ -106,6 +106,8 @@ func Print(t *Term, vars map[string]*Term) string {
 			fmt.Fprintf(&b, "(_ to_fp_unsigned %s) RNE", fpParams(x.W))
 		case OpFToF:
 			fmt.Fprintf(&b, "(_ to_fp %s) RNE", fpParams(x.W))
+		case OpFRound:
+			fmt.Fprintf(&b, "fp.roundToIntegral %s", [...]string{"RTZ", "RTN", "RTP", "RNE", "RNA"}[x.A])
 		default:
 			n, ok := opName[x.Op]
 			if !ok {
